@@ -81,6 +81,8 @@ pub enum WExpr {
     RepFailed(Box<WExpr>),
     /// custom filter: parser errors only
     RepErrs(Box<WExpr>),
+    /// `Repeat` with a custom filter matching every item, run-Finished included
+    RepAll(Box<WExpr>),
     Tee(Box<WExpr>, Box<WExpr>),
     /// predicate: scenario events go left, everything else right
     Or(Box<WExpr>, Box<WExpr>),
@@ -159,7 +161,7 @@ impl RefState {
                 };
                 self.go(inner, &mapped, idx);
             }
-            WExpr::RepSkipped(inner) | WExpr::RepFailed(inner) | WExpr::RepErrs(inner) => {
+            WExpr::RepSkipped(inner) | WExpr::RepFailed(inner) | WExpr::RepErrs(inner) | WExpr::RepAll(inner) => {
                 let my = *idx;
                 *idx += 1;
                 if self.bufs.len() <= my {
@@ -169,6 +171,7 @@ impl RefState {
                     let keep = match x {
                         WExpr::RepSkipped(_) => is_skipped(e),
                         WExpr::RepFailed(_) => is_failed(e),
+                        WExpr::RepAll(_) => true,
                         _ => matches!(e, Ev::ParseErr(_)),
                     };
                     if keep {
@@ -218,7 +221,7 @@ fn count_repeats(x: &WExpr) -> usize {
     match x {
         WExpr::Rec(_) => 0,
         WExpr::Fos(i) | WExpr::FosInRule(i) | WExpr::DiscardArb(i) | WExpr::DiscardStats(i) => count_repeats(i),
-        WExpr::RepSkipped(i) | WExpr::RepFailed(i) | WExpr::RepErrs(i) => 1 + count_repeats(i),
+        WExpr::RepSkipped(i) | WExpr::RepFailed(i) | WExpr::RepErrs(i) | WExpr::RepAll(i) => 1 + count_repeats(i),
         WExpr::Tee(l, r) | WExpr::Or(l, r) => count_repeats(l) + count_repeats(r),
     }
 }
@@ -231,6 +234,7 @@ pub fn ref_stats(x: &WExpr, c: &[[usize; 6]]) -> [usize; 6] {
         | WExpr::RepSkipped(i)
         | WExpr::RepFailed(i)
         | WExpr::RepErrs(i)
+        | WExpr::RepAll(i)
         | WExpr::DiscardArb(i) => ref_stats(i, c),
         WExpr::DiscardStats(_) => [0; 6],
         WExpr::Tee(l, r) => {
@@ -308,6 +312,9 @@ fn in_rule(_: &gherkin::Feature, r: Option<&gherkin::Rule>, _: &gherkin::Scenari
 fn errs_only(e: &RawItem) -> bool {
     e.is_err()
 }
+fn every_item(_: &RawItem) -> bool {
+    true
+}
 fn or_pred<C>(e: &RawItem, _: &C) -> bool {
     matches!(
         e.as_ref().map(|e| &e.value),
@@ -338,6 +345,12 @@ pub fn nestings() -> Vec<(&'static str, usize, WExpr, Box<dyn Fn() -> Box<dyn Dy
         1,
         X::RepErrs(r(0)),
         Box::new(|| Box::new(WithArb(SRec(0).repeat_if::<TW, _>(errs_only as fn(&RawItem) -> bool)))),
+    ));
+    v.push((
+        "Repeat::new(everything)",
+        1,
+        X::RepAll(r(0)),
+        Box::new(|| Box::new(WithArb(SRec(0).repeat_if::<TW, _>(every_item as fn(&RawItem) -> bool)))),
     ));
     v.push(("Tee", 2, X::Tee(r(0), r(1)), Box::new(|| Box::new(WithArb(SRec(0).tee::<TW, _>(SRec(1)))))));
     v.push((
